@@ -58,6 +58,8 @@ type Sim struct {
 	Dir    string
 	Status map[*refchain.Block]Status
 	Manual map[*refchain.Block]bool // manually invalidated
+	// hadData: the store had the data of the block being delivered before the ProcessBlock call
+	hadData bool
 	// dataAware: on a pruning node, Eligible counts a branch only if the store still has the block data that switching
 	// to it needs (see settleTip)
 	dataAware bool
@@ -355,8 +357,13 @@ func (s *Sim) DeliverBlock(b *refchain.Block) {
 	}
 	blk := btcutil.NewBlock(b.Msg)
 	_, _, s.parentKnownInvalid, s.hooked = nodeStatus(s.N.Chain, &b.Parent.Hash)
+	hadData := s.hasData(b)
+	s.hadData = hadData
 	isMain, isOrphan, err := s.N.Chain.ProcessBlock(blk, blockchain.BFNone)
 	s.K.Count("op.ProcessBlock", 1)
+	if os.Getenv("VERIF_SIM_DEBUG") != "" {
+		fmt.Fprintf(os.Stderr, "DBG blk(%s) st=%d parentSt=%d parentKnownInvalid=%v hadData=%v -> main=%v orphan=%v err=%v hasData=%v\n", b.Name, st, s.Status[b.Parent], s.parentKnownInvalid, hadData, isMain, isOrphan, err, s.hasData(b))
+	}
 	rc := ruleClass(b)
 	switch {
 	case st == SStored || st == SOrphan:
@@ -454,14 +461,15 @@ func (s *Sim) acceptWithParent(b *refchain.Block, isMain, isOrphan bool, err err
 		// parent chain contains an invalid or invalidated block: the node may refuse (known invalid
 		// ancestor) or store the block, depending on what it has found out so far. Observe.
 		if direct {
-			if s.hooked && s.parentKnownInvalid && (err == nil || s.hasData(b)) {
+			// (a block whose data was in the store before this call was not stored by it: re-deliveries are exempt)
+			if s.hooked && s.parentKnownInvalid && !s.hadData && (err == nil || s.hasData(b)) {
 				s.Fail("process:stored-on-known-invalid-parent", "block %s was stored (err %v) although the index already records its parent %s as invalid", b.Name, err, b.Parent.Name)
 			}
 			if err == nil && !isOrphan {
 				s.Status[b] = SStored
-			} else if isRule(err, blockchain.ErrInvalidAncestorBlock) {
-				// refused
 			} else if err != nil && s.hasData(b) {
+				// stored although an error came back: the invalid ancestor was found out while the node tried to
+				// connect the branch (the error may well be the invalid-ancestor one)
 				s.Status[b] = SStored
 			}
 		} else if s.hasData(b) {
